@@ -90,6 +90,11 @@ class MG(da.Solver):
         """
         super().update_params(dim, mass_coeff, diffusion_coeff)
         self.smoother.update_params(dim, mass_coeff, diffusion_coeff)
+        # The parameters in effect decide whether the coarse levels need restricted
+        # parameters - not the parameters the solver has been constructed with.
+        self.heterogeneous = isinstance(self.mass_coeff, np.ndarray) or isinstance(
+            self.diffusion_coeff, np.ndarray
+        )
 
     def operator(self, x: np.ndarray, h: float) -> np.ndarray:
         """The solution operator for the problem
